@@ -379,7 +379,9 @@ func (w *docWorld) build(d dDoc) (*jsonapi.Document, *jsonapi.URL, []jsonapi.Res
 	}
 	raw += docQueries[w.v.Query%len(docQueries)]
 	url, err := jsonapi.NewURLFromRaw(w.schema, raw)
-	must(err)
+	if err != nil {
+		must(fmt.Errorf("the request URL %q of the case: %w", raw, err))
+	}
 	url.Params.Fields = map[string][]string{}
 	for t, names := range d.Fields {
 		url.Params.Fields[t] = append([]string{}, names...)
